@@ -1,6 +1,6 @@
 module verif
 
-go 1.19
+go 1.21
 
 require (
 	github.com/zalf-rpm/Hermes2Go/hermes v0.0.0
